@@ -1,7 +1,8 @@
 import Pyc.Model.Bech32
 
 /-! Helper lemmas for C15 about `Pyc/Model/Bech32.lean`:
-GF(2)-linearity of the checksum register, the single-error table, the regrouping of bits, the round trip. -/
+GF(2)-linearity of the checksum register, detection of a single error at any distance from the end (the checksum
+step is injective on 30-bit registers), the single-error table over both constants. -/
 
 namespace Pyc.Bech32
 
@@ -75,6 +76,51 @@ theorem zipWith_xor_self (l : List Nat) : List.zipWith (· ^^^ ·) l l = List.re
   | nil => rfl
   | cons x l ih => simp only [List.zipWith_cons_cons, Nat.xor_self, List.length_cons, List.replicate_succ, ih]
 
+/-! ## one checksum step is injective on 30-bit registers: a single error is detected at ANY distance from the end -/
+
+theorem xor_eq_zero {a b : Nat} (h : a ^^^ b = 0) : a = b := by
+  have : a = (a ^^^ b) ^^^ b := by rw [Nat.xor_assoc, Nat.xor_self, Nat.xor_zero]
+  rw [this, h, Nat.zero_xor]
+
+theorem sel_zero : sel 0 = 0 := by decide
+
+theorem sel_lt (top : Nat) : sel top < 2 ^ 30 := by
+  unfold sel
+  repeat' apply Nat.xor_lt_two_pow
+  all_goals split <;> decide
+
+theorem step_lt (c v : Nat) (hv : v < 2 ^ 30) : step c v < 2 ^ 30 := by
+  unfold step
+  apply Nat.xor_lt_two_pow _ (sel_lt _)
+  apply Nat.xor_lt_two_pow _ hv
+  rw [show (0x1FFFFFF : Nat) = 2 ^ 25 - 1 by decide, Nat.and_two_pow_sub_one_eq_mod, Nat.shiftLeft_eq]
+  have := Nat.mod_lt c (Nat.two_pow_pos 25)
+  omega
+
+/-- the low five bits of the generator constants are linearly independent over GF(2) (the constant coefficient of
+g(x) is a non-zero element of GF(32)): only `top = 0` selects a combination whose low five bits vanish -/
+theorem sel_low : ∀ top, top < 32 → sel top % 32 = 0 → top = 0 := by decide
+
+/-- multiplying a non-zero residue by `x` (one step with symbol 0) gives a non-zero residue -/
+theorem step_zero_ne (c : Nat) (hc : c < 2 ^ 30) (h0 : c ≠ 0) : step c 0 ≠ 0 := by
+  intro h
+  unfold step at h
+  rw [Nat.xor_zero] at h
+  have e := xor_eq_zero h
+  rw [show (0x1FFFFFF : Nat) = 2 ^ 25 - 1 by decide, Nat.and_two_pow_sub_one_eq_mod, Nat.shiftLeft_eq,
+    Nat.shiftRight_eq_div_pow] at e
+  have ht : c / 2 ^ 25 < 32 := by omega
+  have hs : sel (c / 2 ^ 25) % 32 = 0 := by rw [← e]; omega
+  have t0 := sel_low _ ht hs
+  rw [t0, sel_zero] at e
+  omega
+
+theorem polymodFrom_zeros_ne : ∀ (k c : Nat), c < 2 ^ 30 → c ≠ 0 → polymodFrom c (List.replicate k 0) ≠ 0
+  | 0, _, _, h0 => h0
+  | k + 1, c, hc, h0 => by
+    simp only [List.replicate_succ, polymodFrom, polymodStep_eq]
+    exact polymodFrom_zeros_ne k _ (step_lt c 0 (by decide)) (step_zero_ne c hc h0)
+
 /-! ## the single-error table -/
 
 /-- checksum residue of the single-symbol error `e` placed `k` symbols before the end -/
@@ -118,16 +164,18 @@ theorem errRes_ok (e k : Nat) (he1 : 1 ≤ e) (he : e < 32) (hk : k < 130) : okR
   have := runOk_spec _ _ h1 k hk
   simpa [errRes, polymodFrom, polymodStep_zero] using this
 
-theorem xor_eq_zero {a b : Nat} (h : a ^^^ b = 0) : a = b := by
-  have : a = (a ^^^ b) ^^^ b := by rw [Nat.xor_assoc, Nat.xor_self, Nat.xor_zero]
-  rw [this, h, Nat.zero_xor]
+/-- a single-symbol error never has residue 0, however far from the end of the string it is -/
+theorem errRes_ne_zero (e k : Nat) (he1 : 1 ≤ e) (he : e < 2 ^ 30) : errRes e k ≠ 0 := by
+  unfold errRes
+  simp only [polymodFrom, polymodStep_zero]
+  exact polymodFrom_zeros_ne k e he (by omega)
 
-/-- a register value is accepted by `bech32_verify_checksum` -/
-def Accepted (r : Nat) : Prop := r = 1 ∨ r = bech32mConst
+/-- a register value is accepted by `bech32_decode`: the Bech32 constant only -/
+def Accepted (r : Nat) : Prop := r = 1
 
-/-- one substituted 5-bit symbol turns an accepted residue into a rejected one -/
+/-- one substituted 5-bit symbol turns an accepted residue into a rejected one (strings of any length) -/
 theorem subst_not_accepted (c : Nat) (pre suf : List Nat) (x x' : Nat) (hx : x < 32) (hx' : x' < 32) (hne : x ≠ x')
-    (hlen : suf.length < 130) (h : Accepted (polymodFrom c (pre ++ x :: suf))) :
+    (h : Accepted (polymodFrom c (pre ++ x :: suf))) :
     ¬ Accepted (polymodFrom c (pre ++ x' :: suf)) := by
   intro h'
   have he : x ^^^ x' < 32 := Nat.xor_lt_two_pow (n := 5) hx hx'
@@ -135,9 +183,10 @@ theorem subst_not_accepted (c : Nat) (pre suf : List Nat) (x x' : Nat) (hx : x <
     rcases Nat.eq_zero_or_pos (x ^^^ x') with h0 | h0
     · exact absurd (xor_eq_zero h0) hne
     · exact h0
-  have ok := errRes_ok _ _ he1 he hlen
+  have ok := errRes_ne_zero _ suf.length he1 (by omega)
   rw [← polymod_subst c pre suf x x'] at ok
   unfold Accepted at h h'
-  rcases h with h | h <;> rcases h' with h' | h' <;> rw [h, h'] at ok <;> revert ok <;> decide
+  rw [h, h'] at ok
+  exact ok (by decide)
 
 end Pyc.Bech32
